@@ -26,6 +26,7 @@ package barrier
 // (P1, "sealed serves nothing", is evaluated in props/C10.py from the op lines alone.)
 
 import (
+	"strconv"
 	"bytes"
 	"context"
 	"crypto/aes"
@@ -1079,6 +1080,64 @@ func c10SealedCommit(t *testing.T, out *vh.Out) {
 	out.Op(res, "sealedcommit")
 }
 
+// c10TxnTerm (directed): "new writes use the newest key term" — also the writes of a storage TRANSACTION that was begun
+// (and had written) before the rotation: a Put issued after Rotate has returned is sealed under the new term.
+// Op line: txnterm => before:<term>|after:<term>|read:<ok|lost>
+func c10TxnTerm(t *testing.T, out *vh.Out) {
+	out.Reset()
+	ctx := context.Background()
+	inm, err := inmem.NewInmem(nil, log.NewNullLogger())
+	if err != nil {
+		t.Fatal(err)
+	}
+	b, ok := NewAESGCMBarrier(inm, nil).(*TransactionalAESGCMBarrier)
+	if !ok {
+		t.Fatal("no transactional barrier over the transactional in-memory backend")
+	}
+	key, _ := b.GenerateKey()
+	if err := b.Initialize(ctx, key, nil); err != nil {
+		t.Fatal(err)
+	}
+	if err := b.Unseal(ctx, key); err != nil {
+		t.Fatal(err)
+	}
+	txn, err := b.BeginTx(ctx)
+	if err != nil {
+		t.Fatal(err)
+	}
+	if err := txn.Put(ctx, &logical.StorageEntry{Key: "kv/before", Value: []byte("one")}); err != nil {
+		t.Fatal(err)
+	}
+	newTerm, err := b.Rotate(ctx)
+	if err != nil {
+		t.Fatalf("rotate: %v", err)
+	}
+	if err := txn.Put(ctx, &logical.StorageEntry{Key: "kv/after", Value: []byte("two")}); err != nil {
+		t.Fatal(err)
+	}
+	if err := txn.Commit(ctx); err != nil {
+		t.Fatalf("commit: %v", err)
+	}
+	term := func(k string) string {
+		e, err := inm.Get(ctx, k)
+		if err != nil || e == nil || len(e.Value) < 4 {
+			return "?"
+		}
+		return strconv.Itoa(int(binary.BigEndian.Uint32(e.Value[:4])))
+	}
+	rd := "ok"
+	for _, k := range []string{"kv/before", "kv/after"} {
+		if e, err := b.Get(ctx, k); err != nil || e == nil {
+			rd = "lost"
+		}
+	}
+	res := "before:" + term("kv/before") + "|after:" + term("kv/after") + "|read:" + rd
+	if term("kv/after") != strconv.Itoa(int(newTerm)) {
+		res += "!VIOL:a write issued after the rotation to term " + strconv.Itoa(int(newTerm)) + " had returned was sealed under term " + term("kv/after") + " (a transaction begun before the rotation)#write-after-rotation-under-old-term"
+	}
+	out.Op(res, "txnterm")
+}
+
 // c10GateStore: a store whose next write of the keyring can be held back (a slow storage)
 type c10GateStore struct {
 	physical.Backend
@@ -1192,6 +1251,7 @@ func TestVerifC10Barrier(t *testing.T) {
 	defer out.Close()
 	rng := vh.NewRand(vh.Seed())
 	c10SealedCommit(t, out)
+	c10TxnTerm(t, out)
 	c10TickRace(t, out)
 	nCases := vh.EnvInt("VERIF_C10_CASES", 1500)
 	if vh.Thorough() {
